@@ -91,7 +91,9 @@ Definition expand_whole (fuel : nat) (sl : skeleton_t) (p : nat) (leg : nat * si
       let interior :=
         if sk_is_edge o then [(p, leg)]
         else push_all (map (fun l => (p, l)) (all_legs (length (sk_vars o)))) [] in
-      expand_loop fuel sl c b frontier interior
+      (* an operator that covers no variables is a cluster by itself (fix 2af70d2) *)
+      let b0 := if negb (sk_is_edge o) && Nat.eqb (length (sk_vars o)) 0 then set_boundaries p c b else b in
+      expand_loop fuel sl c b0 frontier interior
   end.
 
 Fixpoint first_unmapped_from (p : nat) (sl : skeleton_t) (b : bounds) : option nat :=
